@@ -2,7 +2,8 @@
 (* Trace validation of recorded executions of ARP / ICMP on real hosts and *)
 (* routers against ArpIcmp.tla (batch idiom of LinkTrace.tla).             *)
 (*                                                                         *)
-(* cfg: [ifs (sequence of [node, ip, net, mac, seg]), kind, gw, netof,     *)
+(* cfg: [ifs (sequence of [node, ip, mac, seg]), kind, gw, sub (per         *)
+(*       interface: the addresses in its subnet),                          *)
 (*       power, up, cache (per node: sequence of [ip, mac, ifc]),          *)
 (*       skip (clause names not judged: empty in the verdict pass; the     *)
 (*       harness re-examines a REJECTED trace with the clauses it failed   *)
@@ -33,7 +34,7 @@ CacheOf(s) == [ip \in {s[j].ip : j \in 1..Len(s)} |->
                   LET j == CHOOSE j \in 1..Len(s) : s[j].ip = ip IN [mac |-> s[j].mac, ifc |-> s[j].ifc]]
 TallyOf(s) == [id \in {s[j].id : j \in 1..Len(s)} |-> LET j == CHOOSE j \in 1..Len(s) : s[j].id = id IN s[j].c]
 FrameIn(e) == [fid |-> e.fid, k |-> e.k, out |-> e.out, edst |-> e.edst, isrc |-> e.isrc, idst |-> e.idst,
-               id |-> e.id, seq |-> e.seq, tip |-> e.tip, tmac |-> e.tmac]
+               id |-> e.id, seq |-> e.seq, sip |-> e.sip, smac |-> e.smac, tip |-> e.tip, tmac |-> e.tmac]
 IsRx(e) == e.ev \in {"Rx", "RxDeny"}
 IsTx(e, k) == e.ev = "Tx" /\ e.k = k
 Known(e) == e.out \in Ifs /\ (IsRx(e) => e.i \in Ifs)
@@ -45,13 +46,13 @@ Clauses(e) ==
     [ \* --- ARP cache
       LearnOnlyFromReceivedFrame |->
           (e.ev = "Rx" /\ Known(e) /\ Sent(e)) =>
-              CacheOf(e.cache) = Learn(cache[e.n], e.n, f.isrc, Esrc(f), e.i),
+              CacheOf(e.cache) = Learnt(cache[e.n], e.i, f),
       CacheOnlyByRx |->
           (e.ev \notin {"Rx", "Clear", "Quiet"} /\ e.n # 0) => CacheOf(e.cache) = cache[e.n],
       ClearEmptiesCache |-> e.ev = "Clear" => e.cache = <<>>,
       \* --- who receives
       RxFrameWasSent |-> IsRx(e) => (Known(e) /\ Sent(e) /\ Seg(f) = ifs[e.i].seg /\ ifs[e.i].node = e.n
-                                      /\ e.n # ifs[f.out].node /\ e.esrc = Esrc(f)),
+                                      /\ e.i # f.out /\ e.esrc = Esrc(f)),
       RxNotTwice |-> IsRx(e) => <<e.fid, e.i>> \notin got,
       OnlyLiveNodesReceive |-> (IsRx(e) /\ Known(e)) => (power[e.n] /\ up[e.i] /\ e.pw /\ e.ifup),
       RxAddressedHere |-> (IsRx(e) /\ Known(e)) => Accepts(e.i, f),
@@ -61,7 +62,8 @@ Clauses(e) ==
           (Known(e) /\ ifs[e.out].node = e.n /\ (e.ok => (power[e.n] /\ up[e.out])) /\ (e.why = "ifdown" => ~up[e.out])),
       TxFrameWellFormed |-> (e.ev = "Tx" /\ Known(e)) =>
           (e.fid = nfid /\ e.esrc = ifs[e.out].mac
-           /\ (e.k \in {"areq", "arep"} => (e.sip = e.isrc /\ e.smac = e.esrc /\ e.tip = e.idst))),
+           /\ (e.k \in {"areq", "arep"} => e.tip = e.idst)
+           /\ (e.k = "arep" => TxArpReplyShape(FrameIn(e)))),
       ArpRequestOncePerMiss |-> (IsTx(e, "areq") /\ Known(e)) => TxArpRequestOk(f),
       LookupMissSendsRequest |-> (e.ev = "ArpAsk" => AskSent(e.n)) /\ (e.ev = "Quiet" => \A n \in Nodes : AskSent(n)),
       ArpRequestBroadcastInTargetSubnet |-> (IsTx(e, "areq") /\ Known(e)) => TxArpRequestShape(f),
@@ -107,7 +109,7 @@ Step(e) ==
 TraceInit ==
     /\ tid \in 1..Len(Traces)
     /\ l = 1
-    /\ ArpInit(Cfg.ifs, Cfg.kind, Cfg.gw, Cfg.netof, Cfg.power, Cfg.up,
+    /\ ArpInit(Cfg.ifs, Cfg.kind, Cfg.gw, [i \in 1..Len(Cfg.sub) |-> {Cfg.sub[i][j] : j \in 1..Len(Cfg.sub[i])}], Cfg.power, Cfg.up,
                [n \in 1..Len(Cfg.kind) |-> CacheOf(Cfg.cache[n])])
 
 TraceNext ==
